@@ -695,7 +695,7 @@ func (g *FuncGen) binop(op token.Token, a, b Val, ta, tb types.Type, in ssa.Inst
 		if isFloat(ta) {
 			t = fmt.Sprintf("(fp.eq %s %s)", a.T, b.T)
 		} else {
-			t = eq(a.T, b.T)
+			t = g.valuesEqual(a.T, b.T, ta)
 		}
 		if op == token.NEQ {
 			t = not(t)
@@ -788,6 +788,58 @@ func (g *FuncGen) binop(op token.Token, a, b Val, ta, tb types.Type, in ssa.Inst
 	}
 	g.unsup("binop %s", op)
 	return Val{}
+}
+
+// valuesEqual is Go's == on values of type t: arrays compare their len elements (the SMT array may differ
+// outside that range), structs field by field; everything else is SMT equality.
+func (g *FuncGen) valuesEqual(a, b string, t types.Type) string {
+	c := g.c
+	if t == nil {
+		return eq(a, b)
+	}
+	switch u := types.Unalias(t).Underlying().(type) {
+	case *types.Array:
+		if u.Len() > 64 {
+			return eq(a, b)
+		}
+		var parts []string
+		for i := int64(0); i < u.Len(); i++ {
+			idx := c.intLit64(i, 64)
+			parts = append(parts, g.valuesEqual(fmt.Sprintf("(select %s %s)", a, idx), fmt.Sprintf("(select %s %s)", b, idx), u.Elem()))
+		}
+		return and(parts...)
+	case *types.Struct:
+		if !containsArray(u, 0) {
+			return eq(a, b)
+		}
+		_, name, _ := c.structOf(t)
+		c.sortOf(t)
+		var parts []string
+		for i := 0; i < u.NumFields(); i++ {
+			f := u.Field(i)
+			sel := func(x string) string { return fmt.Sprintf("(%s!%s %s)", name, sanitize(f.Name()), x) }
+			parts = append(parts, g.valuesEqual(sel(a), sel(b), f.Type()))
+		}
+		return and(parts...)
+	}
+	return eq(a, b)
+}
+
+func containsArray(t types.Type, depth int) bool {
+	if depth > 6 {
+		return false
+	}
+	switch u := types.Unalias(t).Underlying().(type) {
+	case *types.Array:
+		return true
+	case *types.Struct:
+		for i := 0; i < u.NumFields(); i++ {
+			if containsArray(u.Field(i).Type(), depth+1) {
+				return true
+			}
+		}
+	}
+	return false
 }
 
 func (g *FuncGen) shift(op token.Token, a, b Val, ii intInfo, tb types.Type, in ssa.Instruction) string {
